@@ -1036,10 +1036,59 @@ fn bias_workload(ctx: &Ctx, tier: Tier, seed: u64) -> Value {
             ctx.merge(b);
         });
     });
+    // The two extreme settings are absolute statements ("never" / "always"), which frequencies
+    // over 1e4 iterations cannot tell from a one-in-millions leak (e.g. an inclusive comparison
+    // against a coarse random number). Long runs in a world where nothing can ever be added to
+    // the tree (only the start state itself is valid, so every iteration costs the same few
+    // hundred nanoseconds): bias 0 must never draw a goal sample, bias 1 never a uniform one.
+    let long_runs = tier.pick(16usize, 64);
+    let long_iters = std::env::var("VERIF_C16_LONG_ITERS").ok().and_then(|s| s.parse().ok()).unwrap_or(tier.pick(20_000_000u64, 60_000_000));
+    par_shards(long_runs, crate::util::n_threads(), |i| {
+        let kind = [PKind::Star, PKind::Rrt][i % 2];
+        let p = if i % 8 == 7 { 1.0 } else { 0.0 };
+        let spec = crate::spec::Spec { wrap: crate::spec::Wrap::R, comps: vec![crate::spec::Comp { kind: crate::spec::CK::R { n: 1, bounds: Some(vec![(0.0, 10.0)]) }, weight: 1.0, frac: None }] };
+        let problem = Problem {
+            spec: spec.clone(),
+            world: crate::world::World { prims: vec![crate::world::Prim::Shell { centre: vec![0.5], r_in: 1e-300, r_out: 1e9 }] },
+            start: vec![0.5],
+            extra_starts: vec![],
+            goal: crate::world::GoalSpec { centre: vec![9.0], radius: 0.5, mode: crate::world::GoalMode::Centre, fail_at: None, window: None },
+            infeasible: Some("only the start state is valid".into()),
+            tags: vec!["bias-long-run".into()],
+        };
+        let late = i % 4 >= 2;
+        let params = PParams { kind, max_distance: 0.7, goal_bias: if late { 0.5 } else { p }, search_radius: 1.0, connection_radius: 1.0, seed: Some(seed.wrapping_mul(1000).wrapping_add(7000 + i as u64)) };
+        with_kit!(spec, K, kit => {
+            oxmpl::verif::arm(0);
+            let Ok(mut d) = Drv::new(&kit, &params, 0.0) else { return };
+            d.log.borrow_mut().keep_events = false;
+            d.log.borrow_mut().budget = u64::MAX / 4;
+            let Ok(inst) = d.install(&problem, SampleMode::PlannerRng) else { return };
+            if d.setup(inst) != Res::Done { return; }
+            if late {
+                d.set_goal_bias(p);
+            }
+            let (g0, u0) = { let l = d.log.borrow(); (l.n_goal_sample, l.n_uniform) };
+            let res = d.solve_iters(long_iters);
+            let (g1, u1) = { let l = d.log.borrow(); (l.n_goal_sample, l.n_uniform) };
+            let (g, u) = (g1 - g0, u1 - u0);
+            let mut b = Batch::default();
+            b.evaluations += g + u;
+            b.count("bias_long_runs", 1);
+            b.count(&format!("bias_long_run_iterations[p={p}]"), g + u);
+            if (p == 0.0 && g > 0) || (p == 1.0 && u > 0) {
+                ctx.violate(&format!("goal-bias-extreme:{}", kind.name()), format!("configured bias {p}: {g} goal samples and {u} uniform samples in {} iterations; result {}", g + u, res.short()),
+                    json!({"kind":"bias","problem":problem.to_json(),"params":params.to_json(),"iters":long_iters}));
+            }
+            ctx.merge(b);
+        });
+    });
     ctx.require("bias_runs[p=0]");
     ctx.require("bias_runs[p=1]");
     ctx.require("bias_runs[p=0.3]");
-    json!({"bias_runs": runs})
+    ctx.require("bias_long_run_iterations[p=0]");
+    ctx.require("bias_long_run_iterations[p=1]");
+    json!({"bias_runs": runs, "bias_long_runs": long_runs, "bias_long_run_iterations_each": long_iters})
 }
 
 /// C17 differential: same seed and problem, RRT vs RRT*: same last state, RRT* not longer.
